@@ -48,6 +48,10 @@ pub fn check(tier: Tier) -> Check {
     for (r1, r) in [(0u64, 1u64), (3, 1), (1, 2), (1, 3)] {
         parts.push(Part::new("C10/quota", json!({"depth": tier.pick(4, 6), "r": r, "r1": r1}), 0, tier.pick(25, 400)));
     }
+    // ... the first connection ending with its quota used up, and a publish requested between the two
+    for (r1, r) in [(1u64, 1u64), (2, 1), (1, 2)] {
+        parts.push(Part::new("C10/quota", json!({"depth": tier.pick(3, 4), "r": r, "r1": r1, "between": true}), 0, tier.pick(25, 400)));
+    }
     // across a resume (hook H1): with R = 65535 (absent / announced) the publishes re-sent on the new
     // connection and their acknowledgements must leave the quota usable - every later publish is accepted
     parts.push(Part::new("C10/resume", json!({"depth": tier.pick(4, 6), "expiry": 1000, "secs_ago": 10}), 0, tier.pick(25, 300)));
@@ -238,17 +242,44 @@ pub fn scenario(name: &str, params: &Value) -> Scenario {
             // a second connection of the same Context: the quota is the one its CONNACK announces
             sys.auto_exit = false;
             sys.bring_up(if r1 == 0 { vec![] } else { receive_max(r1 as u16) });
-            for q in [1u8, 2] {
-                sys.apply(Ev::Start(OpSpec::Publish(PublishSpec::simple(q, "t", b"first"))));
-                let o = sys.m.ops.len() - 1;
-                while let Some(p) = sys.ack_for(o, 0, "") {
-                    sys.apply(Ev::Deliver(p));
-                    if sys.dead {
-                        break;
+            let between = params["between"].as_bool().unwrap_or(false);
+            if between {
+                // the first connection ends with exactly R1 publishes unacknowledged (its quota used up) -
+                // by end-of-stream or by the user's DISCONNECT -, and a publish is requested BEFORE the
+                // next connect(): it is carried by the second connection and counts against ITS quota
+                for _ in 0..r1 {
+                    sys.apply(Ev::Start(OpSpec::Publish(PublishSpec::simple(1, "t", b"unacknowledged"))));
+                }
+                if chz.choose(2) == 0 {
+                    sys.apply(Ev::Eof);
+                } else {
+                    sys.apply(Ev::Start(OpSpec::Disconnect(DisconnectSpec::default())));
+                }
+                sys.apply(Ev::Start(OpSpec::Publish(PublishSpec::simple(1 + chz.choose(2) as u8, "t", b"between"))));
+                // (no disconnection is recorded, so this is no resume: the exchanges of the first
+                // connection are not continued and hold no slot of the new connection)
+                // the broker of the new connection knows nothing of them and never acknowledges them
+                sys.m.quota_used = 0;
+                for o in sys.m.ops.iter_mut() {
+                    if o.inflight {
+                        o.inflight = false;
+                        o.lenient = true;
+                        o.st = St::Done;
                     }
                 }
+            } else {
+                for q in [1u8, 2] {
+                    sys.apply(Ev::Start(OpSpec::Publish(PublishSpec::simple(q, "t", b"first"))));
+                    let o = sys.m.ops.len() - 1;
+                    while let Some(p) = sys.ack_for(o, 0, "") {
+                        sys.apply(Ev::Deliver(p));
+                        if sys.dead {
+                            break;
+                        }
+                    }
+                }
+                sys.apply(Ev::Eof);
             }
-            sys.apply(Ev::Eof);
             if !sys.dead {
                 sys.events.push("Reconnect".into());
                 sys.classes.push("Reconnect".into());
